@@ -1138,4 +1138,88 @@ mod verif_kani_c08 {
         }
         kani::cover!(true);
     }
+
+    // ------------------------------------------------------------------------------------------
+    // S1: the comparison inside check_signature.  The HMAC chain is replaced by a fixed 64-digit value (stubs below), the presented
+    // signature is 64 (63, 65) arbitrary bytes: check_signature answers Some exactly when EVERY byte equals the computed
+    // signature, and the signature it hands on as the next `prev_signature` is the computed one.
+    // ------------------------------------------------------------------------------------------
+    const FIXED_SIG: &[u8; 64] = b"4f232c4386841ef735655705268965c44a0e4690baa4adea153f7db9fa80a0a9";
+
+    pub fn stub_chunk_sts(_d: &AmzDate, _r: &str, _s: &str, _p: &str, _c: &[Bytes]) -> String {
+        String::new()
+    }
+
+    pub fn stub_calc_sig(_sts: &str, _k: &crate::auth::SecretKey, _d: &AmzDate, _r: &str, _s: &str) -> String {
+        String::from("4f232c4386841ef735655705268965c44a0e4690baa4adea153f7db9fa80a0a9")
+    }
+
+    fn sig_ctx() -> SignatureCtx {
+        SignatureCtx {
+            amz_date: AmzDate::parse("20130524T000000Z").unwrap(),
+            region: "us-east-1".into(),
+            service: "s3".into(),
+            secret_key: crate::auth::SecretKey::from("k"),
+            prev_signature: "p".into(),
+        }
+    }
+
+    fn sig_compare<const N: usize>() -> bool {
+        let ctx = sig_ctx();
+        let presented: [u8; N] = kani::any();
+        let r = check_signature(&ctx, &presented, &[]);
+        let mut same = N == 64;
+        let mut i = 0;
+        while i < N && i < 64 {
+            if presented[i] != FIXED_SIG[i] {
+                same = false;
+            }
+            i += 1;
+        }
+        assert!(r.is_some() == same, "check_signature accepts exactly the computed signature");
+        if let Some(next) = &r {
+            let b = next.as_bytes();
+            let mut j = 0;
+            let mut eq = b.len() == 64;
+            while eq && j < 64 {
+                if b[j] != FIXED_SIG[j] {
+                    eq = false;
+                }
+                j += 1;
+            }
+            assert!(eq, "the signature handed on is the computed one");
+        }
+        let accepted = r.is_some();
+        core::mem::forget(r);
+        core::mem::forget(ctx);
+        accepted
+    }
+
+    #[kani::proof]
+    #[kani::unwind(67)]
+    #[kani::stub(crate::sig_v4::create_chunk_string_to_sign, stub_chunk_sts)]
+    #[kani::stub(crate::sig_v4::calculate_signature, stub_calc_sig)]
+    fn c08_s1_sig_compare_64() {
+        let accepted = sig_compare::<64>();
+        kani::cover!(accepted);
+        kani::cover!(!accepted);
+    }
+
+    #[kani::proof]
+    #[kani::unwind(67)]
+    #[kani::stub(crate::sig_v4::create_chunk_string_to_sign, stub_chunk_sts)]
+    #[kani::stub(crate::sig_v4::calculate_signature, stub_calc_sig)]
+    fn c08_s1_sig_compare_63() {
+        let accepted = sig_compare::<63>();
+        kani::cover!(!accepted);
+    }
+
+    #[kani::proof]
+    #[kani::unwind(67)]
+    #[kani::stub(crate::sig_v4::create_chunk_string_to_sign, stub_chunk_sts)]
+    #[kani::stub(crate::sig_v4::calculate_signature, stub_calc_sig)]
+    fn c08_s1_sig_compare_65() {
+        let accepted = sig_compare::<65>();
+        kani::cover!(!accepted);
+    }
 }
